@@ -150,14 +150,16 @@ Theorem sc_multi_layout uc cfg pd text :
            (if negb (sc_is_empty (p_structs pd)) || negb (sc_is_empty (p_enums pd))
             then sc_begin_package cfg ++ concat (map sc_render_decl pkgs) ++ sc_end_package cfg else []).
 Proof.
-  unfold sc_generate, sc_decls. cbv zeta. intros H.
+  unfold sc_generate, sc_decls. cbv zeta.
+  generalize (sc_begin_package_object cfg) (sc_end_package_object cfg) (sc_begin_package cfg) (sc_end_package cfg).
+  intros BO EO BP EP H.
   apply c12_bind_ok in H as (head & Eh & H). rewrite Eh. cbn [bind].
   apply c12_bind_ok in H as (po & Epo & H). apply c12_bind_ok in H as (pk & Epk & H). injection H as <-.
   assert (A : exists als, mapM (sc_decl_of cfg) (map ItAlias (p_aliases pd)) = Ok als /\
                           po = if sc_unsigned_integer_used pd || negb (sc_is_empty (p_aliases pd))
-                               then sc_begin_package_object cfg ++
+                               then BO ++
                                     concat (map sc_render_decl ((if sc_unsigned_integer_used pd then [sc_unsigned_aliases] else []) ++ concat als)) ++
-                                    sc_end_package_object cfg
+                                    EO
                                else []).
   { destruct (sc_unsigned_integer_used pd || negb (sc_is_empty (p_aliases pd))) eqn:Ec.
     - apply c12_bind_ok in Epo as (al & Eal & Epo). injection Epo as <-.
@@ -168,7 +170,7 @@ Proof.
   assert (B : exists sts ens, mapM (sc_decl_of cfg) (map ItStruct (p_structs pd)) = Ok sts /\
                               mapM (sc_decl_of cfg) (map ItEnum (p_enums pd)) = Ok ens /\
                               pk = if negb (sc_is_empty (p_structs pd)) || negb (sc_is_empty (p_enums pd))
-                                   then sc_begin_package cfg ++ concat (map sc_render_decl (concat sts ++ concat ens)) ++ sc_end_package cfg
+                                   then BP ++ concat (map sc_render_decl (concat sts ++ concat ens)) ++ EP
                                    else []).
   { destruct (negb (sc_is_empty (p_structs pd)) || negb (sc_is_empty (p_enums pd))) eqn:Ec.
     - apply c12_bind_ok in Epk as (sb & Esb & Epk). apply c12_bind_ok in Epk as (eb & Eeb & Epk). injection Epk as <-.
